@@ -223,6 +223,38 @@ def r3(ctx):
             yield PASS("C01-R3", "get_string_to_sign/scope-split", "scope = credential.split_once('/').1", [site(b, so[0][0], "split_once")])
 
 
+@M.rule("C01-R3b", "what is appended to the string-to-sign / the canonical request is the ingredient itself; the digest wrappers do nothing but digest")
+def r3b(ctx):
+    """The ingredient rules (R3, R4) ask that each ingredient *reaches* the hashed text; this one asks that it arrives
+    unaltered: no trimming, re-casing, replacing, cutting (other than the credential's access key at the first '/')."""
+    n = 0
+    for fn, allow in ((STS, r"str>::split_once$|Iterator::map$"), (CR, r"slice::<impl \[T\]>::join$|Iterator::(map|enumerate|filter_map)$|slice::<impl \[T\]>::split_first$")):
+        b = ctx.fn(fn)
+        for bi, t in b.calls(r"Extend::extend$|Vec::<T, A>::(extend_from_slice|push)$|String::(push_str|push)$"):
+            if len(t["args"]) < 2 or op_const(t["args"][1]) is not None:
+                continue
+            n += 1
+            alt = transforms(b, t["args"][1], allow=allow)
+            if alt:
+                yield VIOL("C01-R3b", "%s/append-as-is" % fn.split("::")[-1], "a value appended to the %s is altered first (through %s): what is hashed is not the request's own method / path / query / header name / scope / hash" % ("string to sign" if fn == STS else "canonical request", [c.split("::")[-1] for c in alt]), where=b.span_of_block(bi))
+    CLOSED = {
+        "crypto::sha256_hex": r"^crypto::sha256$|^hex::encode$|AsRef::as_ref$|Deref::deref$|Borrow::borrow$",
+        "crypto::sha256": r"Digest::(new|update|chain_update|finalize|digest|new_with_prefix)$|Sha256|convert::(Into|From)::\w+$|AsRef::as_ref$|Deref::deref$",
+        "crypto::hmac_sha256": r"(Mac|KeyInit)::new_from_slice$|Mac::(update|chain_update|finalize)$|CtOutput::<T>::into_bytes$|Result::<T, E>::(expect|unwrap)$|convert::(Into|From)::\w+$|AsRef::as_ref$|Deref::deref$",
+    }
+    for fn, ok in CLOSED.items():
+        b = ctx.fn(fn)
+        n += 1
+        extra = [t["callee"] for bi, t in b.calls() if not re.search(ok, t["callee"])]
+        if extra:
+            yield VIOL("C01-R3b", "%s/closed-call-set" % fn.split("::")[-1], "`%s` calls %s besides the digest itself: its input or output is altered" % (fn, [c.split("::")[-1] for c in extra]), where=loc(b.j["span"]))
+    ctx.count(n)
+    if n < 8:
+        yield MISSING("C01-R3b", "append-as-is/floor", "only %d appends / wrappers examined" % n)
+    else:
+        yield PASS("C01-R3b", "append-as-is", "%d appends and digest wrappers: ingredients arrive unaltered" % n, [])
+
+
 @M.rule("C01-R4", "canonical request includes method, path, query, signed headers (name+values by lookup), signed-header list and body hash")
 def r4(ctx):
     b = ctx.fn(CR)
